@@ -6,6 +6,12 @@ spec/seq/Iter.tla (+ PairIter.tla)   I layer: cursor states as coded;  P layer: 
   2. GEN    IterGen / PairIterGen    TLC prints every tree with the expected list / ForEach runs / step trace;
                                      harness/iterdrv replays them on the real iterators (P -> violation, I -> drift)
   3. TRACE  IterTrace / PairIterTrace seeded random deep trees run on the real iterators, judged by TLC
+
+The combinators are generic and the model's items are integers: the replay (2.) executes every case once per
+element-type variant - int, and `any` / `*box` with one integer of the model coded as the nil interface / nil pointer
+(harness/iterdrv/expr_test.go, "element types") - and compares the same expectations after decoding.  Source slices are
+laid out with len = cap or as a window of a longer array that is the source slice of a second iterator (the whole array
+is compared), alternating from run to run.
 """
 import json, os, re, shutil
 import common
@@ -49,7 +55,11 @@ CHECK_DEADLOCK FALSE
 # passes through JAVA_TOOL_OPTIONS does not reach TLC's evaluating threads, the launcher's own variable does (measured).
 TLC_ENV = {"JDK_JAVA_OPTIONS": "-Xss512m"}
 
-MAX_REPORTED = 4        # violations written per failing predicate
+MAX_REPORTED = 4        # violations written per failing predicate and element-type variant
+
+# the element-type variants other than int run on every case of depth <= 1 (a source alone, one combinator over sources:
+# From, FromSlice, Plus, Join ... of inputs with a nil element) and on every n-th deeper case
+ELEM_EVERY = {"quick": 1, "thorough": 1}
 
 
 def plan(pid, tier):
@@ -142,36 +152,49 @@ def run_harness(run, binp, test, env, payload):
     return True
 
 
-def replay_cases(run, binp, d, tag, tables, cases, gen):
+def replay_cases(run, binp, d, tag, tables, cases, gen, elems="all", every=None, dedupe=True):
     inp, outp = os.path.join(d, "cases_%s.jsonl" % tag), os.path.join(d, "res_%s.jsonl" % tag)
     with open(inp, "w") as f:
         for t in tables:
             f.write(json.dumps(t) + "\n")
         for cs in cases:
             f.write(json.dumps(cs) + "\n")
-    env = dict(VERIF_MODE="replay", VERIF_IN=inp, VERIF_OUT=outp)
+    env = dict(VERIF_MODE="replay", VERIF_IN=inp, VERIF_OUT=outp, VERIF_SEED=run.seed, VERIF_ELEMS=elems,
+               VERIF_ELEM_EVERY=every or ELEM_EVERY[run.tier])
     if not run_harness(run, binp, "TestReplay", env, {"mode": "replay-crash", "gen": gen}):
         return
-    stats, per_pred, ndrift = None, {}, 0
+    stats, per_pred, per_elem, int_hits, ndrift = None, {}, {}, set(), 0
     for l in open(outp):
         rec = json.loads(l)
         t = rec["t"]
         if t == "stats":
             stats = rec
+        elif t == "harness" and rec["pred"] == "Codec":
+            raise Infra("the codec between the model's integers and an element type is not a bijection: %s" % rec["got"])
         elif t == "harness":
             raise Infra("the harness tables differ from the tables of the specification: %s" % rec["got"])
         elif t == "aborted":
             run.notes["replay_aborted_after_hang"] = True
-            stats = stats or {"cases": 0, "built": 0, "steps": 0, "foreach": 0, "tables": len(tables)}
+            stats = stats or {"cases": 0, "built": 0, "steps": 0, "foreach": 0, "tables": len(tables), "elems": []}
         elif t == "pviol":
-            n = per_pred.get(rec["pred"], 0)
-            per_pred[rec["pred"]] = n + 1
+            per_pred[rec["pred"]] = per_pred.get(rec["pred"], 0) + 1
+            # int runs first: what a case shows over int already is not reported once more per element type
+            if rec["elem"] == "int":
+                int_hits.add((rec["case"], rec["pred"]))
+            elif dedupe and (rec["case"], rec["pred"]) in int_hits:
+                continue
+            n = per_elem.get((rec["pred"], rec["elem"]), 0)
+            per_elem[(rec["pred"], rec["elem"])] = n + 1
             if n < MAX_REPORTED:
                 cs = cases[rec["case"]]
-                run.violation({"kind": rec["pred"], "root": cs["expr"]["op"]},
-                              "%s: %s of %s: want %s got %s%s" % (run.pid, rec["pred"], json.dumps(cs["expr"]), json.dumps(rec["want"]),
-                                                                 json.dumps(rec["got"]), " (ForEach failing at call %d)" % rec["k"] if rec["pred"].startswith("ForEach") else ""),
-                              {"mode": "replay", "case": cs, "finding": rec})
+                what = "want %s got %s" % (json.dumps(rec["want"]), json.dumps(rec["got"]))
+                if rec["pred"] == "SourceModified":
+                    what = "a source slice (%s) held %s and holds %s afterwards" % (rec.get("src", "?"), json.dumps(rec["want"]), json.dumps(rec["got"]))
+                if rec["pred"].startswith("ForEach") or (rec["pred"] == "SourceModified" and rec["k"]):
+                    what += " (ForEach failing at call %d)" % rec["k"]
+                run.violation({"kind": rec["pred"], "root": cs["expr"]["op"], "elem": rec["elem"]},
+                              "%s: %s of %s over element type %s: %s" % (run.pid, rec["pred"], json.dumps(cs["expr"]), elem_text(rec["elem"]), what),
+                              {"mode": "replay", "case": cs, "elem": rec["elem"], "finding": rec})
         elif t == "drift":
             ndrift += 1
             if ndrift <= 3:
@@ -188,6 +211,14 @@ def replay_cases(run, binp, d, tag, tables, cases, gen):
     run.notes["iterators_built_and_compared"] = run.notes.get("iterators_built_and_compared", 0) + stats["built"]
     run.notes["foreach_runs_compared"] = run.notes.get("foreach_runs_compared", 0) + stats["foreach"]
     run.notes["steps_compared"] = run.notes.get("steps_compared", 0) + stats["steps"]
+    # per element-type variant: cases executed, cases in which the library was handed / delivered a nil element
+    ev = run.notes.setdefault("element_type_variants", {})
+    for e in stats["elems"]:
+        if e["cases"]:
+            a = ev.setdefault(e["elem"], {"cases": 0, "cases_with_a_nil_element": 0, "iterators_built_and_compared": 0})
+            a["cases"] += e["cases"]
+            a["cases_with_a_nil_element"] += e["nilcases"]
+            a["iterators_built_and_compared"] += e["built"]
 
 
 def judge_traces(run, traces, d, tag):
@@ -249,6 +280,14 @@ def judge_traces(run, traces, d, tag):
     run.sample({"random_tree": t["expr"], "depth": t["depth"], "observed": [[s["v"], s["ok"]] for s in t["steps"]][:12]})
 
 
+def elem_text(name):
+    """`any/nil=1` -> `any (the model's 1 is the nil interface)`"""
+    m = re.match(r"(.+)/nil=(-?\d+)$", name)
+    if not m:
+        return name
+    return "%s (the model's %s is the nil %s)" % (m.group(1), m.group(2), "interface" if m.group(1) == "any" else "pointer")
+
+
 # ------------------------------------------------------------------------------------------------ --replay
 def do_replay(run, binp, path):
     """Re-executes the stored case against the current tree and re-judges it."""
@@ -257,7 +296,12 @@ def do_replay(run, binp, path):
     with Scratch() as d:
         mode = pl.get("mode")
         if mode == "replay":
-            replay_cases(run, binp, d, "replay", [], [pl["case"]], pl.get("gen"))
+            # the stored case over every element-type variant (the stored one, pl["elem"], among them), the source slices
+            # laid out as they were (the layout follows the index the case had)
+            cs = dict(pl["case"])
+            if "at" in pl.get("finding", {}):
+                cs["ci"] = pl["finding"]["at"]
+            replay_cases(run, binp, d, "replay", [], [cs], pl.get("gen"), every=1, dedupe=False)
         elif mode == "trace":
             inp, outp = os.path.join(d, "exprs.jsonl"), os.path.join(d, "traces.jsonl")
             with open(inp, "w") as f:
